@@ -40,6 +40,7 @@ type ctx struct {
 	used  bool
 	tmp   int
 	dense bool
+	hot   bool // dense with the cheap sampled yield, no read-modify-write splitting
 	path  string
 }
 
@@ -160,7 +161,7 @@ func (c *ctx) rewrite() {
 		return true
 	})
 
-	if c.dense {
+	if c.dense || c.hot {
 		// go/printer misplaces free-floating comments around inserted statements (and can then
 		// swallow code into a line comment): drop the comments that follow the package clause.
 		kept := c.file.Comments[:0]
@@ -470,6 +471,14 @@ func (c *ctx) splitRMW(st ast.Stmt, fn ast.Node) ast.Stmt {
 func (c *ctx) denseList(list []ast.Stmt, fn ast.Node) []ast.Stmt {
 	out := make([]ast.Stmt, 0, 2*len(list))
 	for _, st := range list {
+		if c.hot {
+			if _, isDecl := st.(*ast.DeclStmt); !isDecl {
+				out = append(out, &ast.ExprStmt{X: call("YieldRare")})
+				stats["T12_yield_rare"]++
+			}
+			out = append(out, st)
+			continue
+		}
 		if _, isDecl := st.(*ast.DeclStmt); !isDecl {
 			out = append(out, &ast.ExprStmt{X: call("YieldMaybe")})
 			stats["T12_yield"]++
@@ -675,6 +684,7 @@ func main() {
 	root, _ := filepath.Abs(os.Args[1])
 	verif := os.Args[2]
 	densePats := readList(filepath.Join(verif, "instrument/dense.txt"))
+	hotPats := readList(filepath.Join(verif, "instrument/dense_hot.txt"))
 	cfg := &packages.Config{
 		Mode: packages.NeedName | packages.NeedFiles | packages.NeedCompiledGoFiles | packages.NeedSyntax | packages.NeedTypes | packages.NeedTypesInfo | packages.NeedImports | packages.NeedDeps,
 		Dir:  root,
@@ -708,6 +718,10 @@ func main() {
 			typed[path] = true
 			rel, _ := filepath.Rel(root, path)
 			c := &ctx{fset: p.Fset, info: p.TypesInfo, file: f, path: rel, dense: matchDense(rel, densePats)}
+			if !c.dense && matchDense(rel, hotPats) {
+				c.hot = true
+				stats["T12_hot_files"]++
+			}
 			if c.dense {
 				stats["T12_dense_files"]++
 			}
